@@ -740,28 +740,24 @@ func (m *Model) Pull(s *MSub, max int, resp []RecvMsg, t0, t1 time.Time) *Violat
 					oracle := "overtaken"
 					// (the link is chosen among all same-key deliveries of the subscription,
 					// dead-letter copies included, by creation time)
-					var q *ED
+					// The link of e points at the latest same-key delivery of the subscription
+					// that existed when e was created (dead-letter copies included). If any
+					// same-key delivery possibly created between p and e is possibly settled,
+					// e's link may point at it and the chain to p is broken.
 					for _, x := range s.EDs {
-						if x == e || x.Msg.Key != e.Msg.Key || x.State == stGone || x.CreLo.After(e.CreLo) {
+						if x == e || x == p || x.Msg.Key != e.Msg.Key || x.State == stGone || seen[x] {
 							continue
 						}
-						if x.Origin == nil && x.Msg.Seq >= e.Msg.Seq {
-							continue
+						between := false
+						if x.Origin == nil && e.Origin == nil && p.Origin == nil && !x.MaybeCopy {
+							between = x.Msg.Seq > p.Msg.Seq && x.Msg.Seq < e.Msg.Seq // publish order is exact
+						} else {
+							between = !x.CreHi.Before(p.CreLo) && !x.CreLo.After(e.CreHi)
 						}
-						later := false
-						if q != nil {
-							if x.Origin == nil && q.Origin == nil {
-								later = x.Msg.Seq > q.Msg.Seq // publish order is known exactly
-							} else {
-								later = x.CreLo.After(q.CreLo)
-							}
+						if between && x.possiblySettled(t1) {
+							oracle = "overtaken_chain_broken"
+							break
 						}
-						if q == nil || later {
-							q = x
-						}
-					}
-					if q != nil && q != p && q.possiblySettled(t1) && !seen[q] {
-						oracle = "overtaken_chain_broken"
 					}
 					if v := m.knownOr(viol("C05", oracle, "message %d (key %q) delivered on %s while earlier message %d with the same key is outstanding (%v)", e.Msg.Seq, e.Msg.Key, s.Name, p.Msg.Seq, p)); v != nil {
 						return v
@@ -1335,6 +1331,12 @@ func (m *Model) SeekSnap(s *MSub, sn *MSnap, t0, t1 time.Time) {
 		}
 		if !e.mustAlive(t1) {
 			// boundary zone of the retention deadline: nothing asserted
+			m.fuzzyBySeek(e, t0, t1)
+			continue
+		}
+		if e.GuessBound || e.MaybeTaken {
+			// which row this expectation stands for was a guess: the snapshot's view of
+			// "this delivery" may be that of the other candidate
 			m.fuzzyBySeek(e, t0, t1)
 			continue
 		}
